@@ -368,9 +368,9 @@ def operators(ctx, world):
         mvc = mvs[0]
         vjp_ = lambda t: t.op == "sub" and t.obj is mvc and t.idx.value == 0
         ans_ = lambda t: t.op == "sub" and t.obj is mvc and t.idx.value == 1
-        from ..tutil import cases, unseq
+        from ..tutil import cases, graft_effect_guards, unseq
 
-        cs = cases(unseq(r))
+        cs = cases(unseq(graft_effect_guards(ev, r)))
         size_of_ans = lambda t: t.op == "attr" and t.name == "size" and is_call_to(t.obj, "autograd.core.vspace") and len(t.obj.args) == 1 and ans_(t.obj.args[0])
         one = lambda t: t.op == "const" and type(t.value) is int and t.value == 1
         if name in ("grad", "value_and_grad"):
@@ -941,7 +941,7 @@ def guard_dominance(ctx, world):
         seen.add(id(fn))
         guards = []
         for i, st in enumerate(fn.body):
-            if _is_guard_stmt(st):
+            if _is_guard_stmt(st, world, ir.maker.mod):
                 guards.append(i)
         if not guards:
             continue
@@ -950,7 +950,7 @@ def guard_dominance(ctx, world):
         for i, st in enumerate(fn.body[: guards[-1]]):
             if isinstance(st, ast.Return):
                 early = st
-            elif isinstance(st, (ast.If, ast.For, ast.While, ast.Try, ast.With)) and not _is_guard_stmt(st):
+            elif isinstance(st, (ast.If, ast.For, ast.While, ast.Try, ast.With)) and not _is_guard_stmt(st, world, ir.maker.mod):
                 for x in ast.walk(st):
                     if isinstance(x, ast.Return) and _encl_def(x) is fn:
                         early = x
@@ -992,7 +992,7 @@ def _guards_on_all_paths(ctx, world):
                     continue
                 if isinstance(x, ast.Assert):
                     guards.append(x)
-                elif isinstance(x, ast.Expr) and isinstance(x.value, ast.Call) and isinstance(x.value.func, ast.Name) and x.value.func.id.startswith("check_"):
+                elif _is_guard_call(world, mod, x):
                     guards.append(x)
             if not guards:
                 continue
@@ -1015,8 +1015,38 @@ def _encl_def(n):
     return p
 
 
-def _is_guard_stmt(st):
+def _is_guard_call(world, mod, st):
+    """an expression statement calling a guard function: a repo function (any name, nested or module level) whose
+    own body raises on some path and whose value is not used"""
+    if not (isinstance(st, ast.Expr) and isinstance(st.value, ast.Call)):
+        return False
+    f = st.value.func
+    if isinstance(f, ast.Name) and f.id.startswith("check_"):
+        return True
+    node = None
+    if isinstance(f, ast.Name):
+        # a nested def of the enclosing function
+        p_ = _encl_def(st)
+        while p_ is not None and node is None:
+            for x in ast.walk(p_):
+                if isinstance(x, ast.FunctionDef) and x.name == f.id and _encl_def(x) is p_:
+                    node = x
+            p_ = _encl_def(p_)
+    if node is None and world is not None and isinstance(f, (ast.Name, ast.Attribute)):
+        r = world.repo.resolve_expr(mod, f)
+        if r is not None and r.kind == "repo" and isinstance(r.node, ast.FunctionDef) and not r.node.decorator_list:
+            node = r.node
+    if node is None:
+        return False
+    raises = [x for x in ast.walk(node) if isinstance(x, ast.Raise) and _encl_def(x) is node]
+    returns_value = [x for x in ast.walk(node) if isinstance(x, ast.Return) and x.value is not None and _encl_def(x) is node]
+    return bool(raises) and not returns_value
+
+
+def _is_guard_stmt(st, world=None, mod=None):
     if isinstance(st, ast.Assert):
+        return True
+    if _is_guard_call(world, mod, st):
         return True
     if isinstance(st, ast.If):
         def only_raises(body):
